@@ -35,6 +35,10 @@ func ValidateLiteralValue(node schema.Node, jsonValue bytes.Bytes) {
 		return
 	}
 
+	if mixed, ok := node.(*schema.MixedNode); ok && !mixed.IsJsonTypeDeclared() {
+		checkRulesOfTypelessRuleSet(mixed, jsonValue)
+	}
+
 	for _, k := range keys {
 		t := constraint.Type(k)
 		c := m.GetValue(t)
@@ -43,6 +47,24 @@ func ValidateLiteralValue(node schema.Node, jsonValue bytes.Bytes) {
 			v.Validate(jsonValue)
 		}
 	}
+}
+
+// checkRulesOfTypelessRuleSet a rule-set of the "or" rule without the "type" rule
+// borrows the JSON type of the EXAMPLE the "or" rule is written on. A rule which
+// can't be used for the JSON type of the value (minLength for 55, regex for true,
+// minItems for "x") doesn't accept it, as the same rule written directly on the
+// value doesn't.
+func checkRulesOfTypelessRuleSet(node *schema.MixedNode, value bytes.Bytes) {
+	t := json.Guess(value).LiteralJsonType() // can panic
+	if t == json.TypeInteger && node.Type() == json.TypeFloat {
+		t = json.TypeFloat // an integer is a value of a float node, see checkNotAnEnum
+	}
+
+	node.ConstraintMap().EachSafe(func(_ constraint.Type, c constraint.Constraint) {
+		if !c.IsJsonTypeCompatible(t) {
+			panic(errors.Format(errors.ErrUnexpectedConstraint, c.Type().String(), t.String()))
+		}
+	})
 }
 
 func checkNotAnEnum(node schema.Node, value bytes.Bytes) {
